@@ -3,6 +3,7 @@ package main
 import (
 	"fmt"
 	"math/rand"
+	"strings"
 	"time"
 )
 
@@ -121,22 +122,21 @@ func runSequences(rep *Report, tier string, seed int64, perCfg int, o seqOpts, a
 		for n := 0; n < perCfg; n++ {
 			g := &Gen{r: rand.New(rand.NewSource(seed*1000003 + int64(ci)*7919 + int64(n)))}
 			sc := genSequence(g, fmt.Sprintf("%s-%d-%d", rep.Property, ci, n), cfg, o)
-			var div *Divergence
-			var tainted bool
-			var obs []StepObs
+			var out Outcome
 			for attempt := 0; attempt < 3; attempt++ {
-				div, tainted, obs = RunScenario(d, sc, 3*time.Second)
-				if !tainted {
+				out = RunScenarioO(d, sc, 3*time.Second, true)
+				if !out.Tainted {
 					break
 				}
 				rep.Tainted++
 			}
-			if tainted {
+			if out.Tainted {
 				continue
 			}
+			div, obs := out.Div, out.Obs
 			rep.Evaluations++
 			countDistribution(rep, sc)
-			// non-trivial: at least one hit was served and at least one store succeeded
+			// non-trivial: at least one reply carried a value
 			sig := fmt.Sprintf("%s/%d", cfg, n)
 			hits := 0
 			for _, ob := range obs {
@@ -149,6 +149,13 @@ func runSequences(rep *Report, tier string, seed int64, perCfg int, o seqOpts, a
 			}
 			if len(rep.Samples) < 3 {
 				rep.Samples = append(rep.Samples, describeScenario(sc))
+			}
+			for _, m := range out.Misses {
+				rep.Violations = append(rep.Violations, Violation{
+					What:      fmt.Sprintf("reply differs from the single-map specification at step %d (%s): %s", m.Step, out.Descs[m.Step], m.Verdict),
+					Signature: classifyMiss(sc, m.Step, obs),
+					Replay:    map[string]interface{}{"scenario": describeScenario(sc), "step": m.Step, "driver_script": out.Script, "impl_reply": canonN(4096, obs[m.Step].Out)},
+				})
 			}
 			if div != nil {
 				rep.Divergences = append(rep.Divergences, div)
@@ -179,3 +186,23 @@ func init() {
 }
 
 func resetInmem() {}
+
+// classifyMiss gives an oracle failure a signature that identifies the failing input shape; the
+// `check` script matches it against known_findings.jsonl.
+func classifyMiss(sc Scenario, step int, obs []StepObs) string {
+	s := sc.Steps[step]
+	proto := ""
+	for _, c := range sc.Conns {
+		if c.ID == s.Conn {
+			proto = c.Proto
+		}
+	}
+	if s.Cmd.Kind == "get" && proto == "text" && sc.Stack.Locked != "none" && len(s.Cmd.Keys) >= 2 {
+		// the reply with all but the last END removed
+		out := string(obs[step].Out)
+		if strings.Count(out, "END\r\n") == len(s.Cmd.Keys) {
+			return "locked-text-multiget-one-END-per-key"
+		}
+	}
+	return fmt.Sprintf("spec-mismatch:%s:%s:%s", sc.Stack, proto, s.Cmd.Kind)
+}
